@@ -538,3 +538,11 @@ def run(ctx):
         ro.check(ntr >= 1, "normalising-validators", "%d field normalisation(s) in Pool::validate" % ntr, "expected the quote-stripping of automatic_sharding_key in Pool::validate")
     ro.check(any("contract:bb8:max_size>0" in k for k in seen_keys), "seen:max_size", "bb8 max_size(pool_size) is among the obligations", "expected obligation (bb8 max_size) not enumerated — enumeration lost coverage")
     ro.check(any(k.endswith("|shard_id") and "index" in k for k in seen_keys), "seen:shard-index", "positional indexing by Address.shard is among the obligations", "expected obligation (index by Address.shard) not enumerated")
+    # an accepted file is only `in force` if the pools are rebuilt for what changed in it: the comparisons that decide whether anything changed
+    # (Pool::hash_value, Config ==) look at every field of every struct of a definition - a server whose role alone changed (a failover written
+    # into the file) must not compare as the same server, or the accepted configuration's primary stays the demoted one
+    from common import definition_identity_findings
+    dif = definition_identity_findings(F)
+    rs.check(len(dif) >= 8, "definition-identity", "%d structs / enums take part in the `did the definition change` comparisons" % len(dif), "only %d definition structs found" % len(dif))
+    for key_, ok_, okm_, fm_ in dif:
+        rs.check(ok_, "definition-identity:" + key_, okm_, fm_ + " - each shard, role and user of the accepted file can be addressed only in pools built from that file")
